@@ -466,6 +466,7 @@ class FlowParser:
             row.data_sheet,
             row.data_row_id,
             row.template_arguments,
+            rapidpro_container=self.rapidpro_container,
         )
         for edge in row.edges:
             self._add_row_edge(edge, node_group.entry_node().uuid)
